@@ -192,7 +192,7 @@ Lemma own_disk : forall s s' g k id p p', Inv s g -> wpc s = p -> wpc s' = p' ->
   (get k (mem s) = None -> get k (fblobs s) = None ->
      (get k (disk s) = None \/ at_created p k = true) ->
      (get k (disk s') = None \/ at_created p' k = true)) ->
-  (forall m fo d, get k (mem s) = Some m -> get id (heap s) = Some fo -> get k (fblobs s) = Some id ->
+  (forall m fo d, get k (mem s) = Some m -> m_data m = d -> get id (heap s) = Some fo -> get k (fblobs s) = Some id ->
      data_inv p fo m (get k (disk s)) d -> md_inv p fo m (get k (disk s)) ->
      data_inv p' fo m (get k (disk s')) d /\ md_inv p' fo m (get k (disk s'))) ->
   gen_inv s' k /\ ghost_inv s' (gget g k) k.
@@ -214,7 +214,7 @@ Proof.
     + destruct (live_on_id s k d mds id W NU G3' X) as [m [fo [EM [XC [XD [XM [XB [F1 [F2 [F3 F4]]]]]]]]]].
       unfold live_inv. rewrite EMem, EM. repeat split; auto. right. split; auto.
       exists id, fo. rewrite EFb, EHeap, P'. rewrite wpos_on by auto. rewrite P in F3, F4.
-      destruct (HD m fo d EM F2 F1 F3 F4). auto.
+      destruct (HD m fo d EM XD F2 F1 F3 F4). auto.
 Qed.
 
 (* live blobs are never in the failure path, nor at WOpened with the key already on disk *)
@@ -401,7 +401,7 @@ Proof.
     + apply (own_idle s g k _ _ HI P HF).
     + others O NE.
   - (* 2 WIdle: nothing to do *)
-    split; [reflexivity|]. split; [exact WI|]. intros k'. apply O; auto.
+    split; [reflexivity|]. split; [exact WI|]. intros k'. apply O; auto. simp. rewrite P. auto.
   - (* 3 WStart -> WOpened *)
     split; [reflexivity|]. split; [exact WI|]. intros k'. destruct (N.eq_dec k k') as [<-|NE]; [|others O NE].
     pose proof (own_start s g k id HI P) as Q. cbn zeta in Q. rewrite Heqb, Heqo in Q. exact Q.
@@ -422,32 +422,144 @@ Proof.
     split; [reflexivity|]. split; [exact WI|]. intros k'. destruct (N.eq_dec k k') as [<-|NE]; [|others O NE].
     odisk HI P k id.
     + intros _ _ _. right. apply N.eqb_refl.
-    + intros m fo d EM Hfo HF D1 D2. rewrite Heqo in *. split.
+    + intros m fo d EM XD Hfo HF D1 D2. rewrite Heqo in *. split.
       * unfold data_inv in *. destruct (f_dd fo); [|tauto]. destruct D1 as [_ D1]. split; auto.
         eexists. split; [reflexivity|]. auto.
       * unfold md_inv in *. intros x. specialize (D2 x). cbn in *. auto.
-  - admit.
-  - admit.
-  - admit.
-  - admit.
-  - admit.
-  - admit.
-  - admit.
-  - admit.
-  - admit.
-  - admit.
-  - admit.
-  - admit.
-  - admit.
-  - admit.
-  - admit.
-  - admit.
-  - admit.
-  - admit.
-  - admit.
-  - admit.
-  - admit.
-  - admit.
-  - admit.
-  - admit.
-Admitted.
+  - (* 9 WCreated -> WChecked *)
+    split; [reflexivity|]. split; [exact WI|]. intros k'. destruct (N.eq_dec k k') as [<-|NE]; [|others O NE].
+    odisk HI P k id.
+    + intros _ F0. congruence.
+    + intros m fo d EM XD Hfo HF D1 D2. unfold data_inv, md_inv in *. split; auto.
+  - (* 10 WCreated: aborted, remove the disk entry *)
+    split; [reflexivity|]. split; [exact WI|]. intros k'. destruct (N.eq_dec k k') as [<-|NE]; [|others O NE].
+    odisk HI P k id.
+    + intros _ _ _. left. reflexivity.
+    + intros m fo d EM XD Hfo HF. congruence.
+  - (* 11 WChecked: copy *)
+    apply N.eqb_eq in Heqb, Heqb0.
+    split; [reflexivity|]. split; [exact WI|]. intros k'. destruct (N.eq_dec k k') as [<-|NE]; [|others O NE].
+    odisk HI P k id.
+    + intros A. congruence.
+    + intros m0 fo d0 EM XD Hfo HF D1 D2. assert (m0 = m) by congruence. subst m0. rewrite Heqo0 in *. split.
+      * unfold data_inv in *. destruct (f_dd fo); [|tauto]. destruct D1 as [_ [e [A [B C]]]]. injection A as <-.
+        eexists. split; [reflexivity|]. simp. auto.
+      * unfold md_inv in *. intros x. specialize (D2 x). cbn in *. auto.
+  - (* 12 *)
+    apply N.eqb_neq in Heqb0.
+    split; [reflexivity|]. split; [exact WI|]. intros k'. destruct (N.eq_dec k k') as [<-|NE]; [|others O NE].
+    odisk HI P k id.
+    + intros _ _ [A|A]; [left; auto|discriminate].
+    + intros m0 fo d0 EM XD Hfo HF D1 D2. exfalso. unfold data_inv in D1. rewrite Heqo0 in D1.
+      destruct (f_dd fo); [|tauto]. destruct D1 as [_ [e [A [B C]]]]. injection A as <-. congruence.
+  - (* 13 *)
+    split; [reflexivity|]. split; [exact WI|]. intros k'. destruct (N.eq_dec k k') as [<-|NE]; [|others O NE].
+    odisk HI P k id.
+    + intros _ _ [A|A]; [left; auto|discriminate].
+    + intros m0 fo d0 EM XD Hfo HF D1 D2. exfalso. unfold data_inv in D1. rewrite Heqo0 in D1.
+      destruct (f_dd fo); [|tauto]. destruct D1 as [_ [e [A _]]]. discriminate.
+  - (* 14 *)
+    apply N.eqb_neq in Heqb.
+    split; [reflexivity|]. split; [exact WI|]. intros k'. destruct (N.eq_dec k k') as [<-|NE]; [|others O NE].
+    odisk HI P k id.
+    + intros _ _ [A|A]; [left; auto|discriminate].
+    + intros m0 fo d0 EM XD Hfo HF D1 D2. exfalso. assert (m0 = m) by congruence. subst m0.
+      unfold data_inv in D1. destruct (f_dd fo); [|tauto]. destruct D1 as [A _]. congruence.
+  - (* 15 *)
+    split; [reflexivity|]. split; [exact WI|]. intros k'. destruct (N.eq_dec k k') as [<-|NE]; [|others O NE].
+    odisk HI P k id.
+    + intros _ _ [A|A]; [left; auto|discriminate].
+    + intros m0 fo d0 EM. congruence.
+  - (* 16 WCopied: disk.MarkComplete *)
+    split; [reflexivity|]. split; [exact WI|]. intros k'. destruct (N.eq_dec k k') as [<-|NE]; [|others O NE].
+    odisk HI P k id.
+    + intros _ _ [A|A]; [congruence|discriminate].
+    + intros m0 fo d0 EM XD Hfo HF D1 D2. rewrite Heqo in *. split.
+      * unfold data_inv in *. destruct (f_dd fo); [|tauto]. destruct D1 as [e [A [B [C D]]]]. injection A as <-.
+        unfold disk_data. eexists. split; [reflexivity|]. simp. auto.
+      * unfold md_inv in *. intros x. specialize (D2 x). cbn in *. auto.
+  - (* 17 *)
+    split; [reflexivity|]. split; [exact WI|]. intros k'. destruct (N.eq_dec k k') as [<-|NE]; [|others O NE].
+    odisk HI P k id.
+    + intros _ _ [A|A]; [left; auto|discriminate].
+    + intros m0 fo d0 EM XD Hfo HF D1 D2. exfalso. unfold data_inv in D1. rewrite Heqo in D1.
+      destruct (f_dd fo); [|tauto]. destruct D1 as [e [A _]]. discriminate.
+  - (* 18 snapshot *)
+    split; [reflexivity|]. split; [exact WI|]. intros k'. destruct (N.eq_dec k k') as [<-|NE]; [|others O NE].
+    apply (own_snapshot s g k id f HI (or_introl P) Heqo).
+  - (* 19 *)
+    split; [reflexivity|]. split; [exact WI|]. intros k'. destruct (N.eq_dec k k') as [<-|NE]; [|others O NE].
+    odisk HI P k id.
+    + intros _ _ [A|A]; [left; auto|discriminate].
+    + intros m0 fo d0 EM XD Hfo. congruence.
+  - (* 20 *)
+    split; [reflexivity|]. split; [exact WI|]. intros k'. destruct (N.eq_dec k k') as [<-|NE]; [|others O NE].
+    apply (own_snapshot s g k id f HI (or_intror P) Heqo).
+  - (* 21 *)
+    split; [reflexivity|]. split; [exact WI|]. intros k'. destruct (N.eq_dec k k') as [<-|NE]; [|others O NE].
+    odisk HI P k id.
+    + intros _ _ [A|A]; [left; auto|discriminate].
+    + intros m0 fo d0 EM XD Hfo. congruence.
+  - (* 22 WMd [] -> WMdFlushed *)
+    split; [reflexivity|]. split; [exact WI|]. intros k'. destruct (N.eq_dec k k') as [<-|NE]; [|others O NE].
+    odisk HI P k id.
+    + intros _ _ [A|A]; [left; auto|discriminate].
+    + intros m0 fo d0 EM XD Hfo HF D1 D2. unfold data_inv, md_inv in *. split; auto.
+      intros x. specialize (D2 x). cbn [In] in D2. tauto.
+  - (* 23 WMd (x :: r): mem.GetMetadata *)
+    split; [reflexivity|]. split; [exact WI|]. intros k'. destruct (N.eq_dec k k') as [<-|NE]; [|others O NE].
+    odisk HI P k id.
+    + intros _ _ [A|A]; [left; auto|discriminate].
+    + intros m0 fo d0 EM XD Hfo HF D1 D2. assert (m0 = m) by congruence. subst m0.
+      unfold data_inv, md_inv in *. split; auto.
+      intros x. specialize (D2 x). cbn [In] in D2. destruct (x =? s0) eqn:EX.
+      * apply N.eqb_eq in EX. subst x. auto.
+      * apply N.eqb_neq in EX. destruct D2 as [D2|[D2|[D2|D2]]]; auto. congruence.
+  - (* 24 *)
+    split; [reflexivity|]. split; [exact WI|]. intros k'. destruct (N.eq_dec k k') as [<-|NE]; [|others O NE].
+    odisk HI P k id.
+    + intros _ _ [A|A]; [left; auto|discriminate].
+    + intros m0 fo d0 EM. congruence.
+  - (* 25 WMdW: disk.SetMetadata / DeleteMetadata *)
+    split; [reflexivity|]. split; [exact WI|]. intros k'. destruct (N.eq_dec k k') as [<-|NE]; [|others O NE].
+    odisk HI P k id.
+    + intros _ _ [A|A]; [congruence|discriminate].
+    + intros m0 fo d0 EM XD Hfo HF D1 D2. rewrite Heqo in *. split.
+      * unfold data_inv, disk_data in *.
+        assert (DD : exists e, Some d = Some e /\ d_complete e = true /\ d_data e = d0) by (destruct (f_dd fo); auto).
+        destruct DD as [e [A [B C]]]. injection A as <-.
+        assert (exists e, Some (d_set_mds d (putopt s0 v (d_mds d))) = Some e /\ d_complete e = true /\ d_data e = d0)
+          by (eexists; split; [reflexivity|]; simp; auto).
+        destruct (f_dd fo); auto.
+      * unfold md_inv in *. intros x. specialize (D2 x). cbn [dmd d_mds d_set_mds] in *.
+        destruct (x =? s0) eqn:EX.
+        -- apply N.eqb_eq in EX. subst x. rewrite get_putopt_eq. auto.
+        -- apply N.eqb_neq in EX. rewrite get_putopt_ne by auto. auto.
+  - (* 26 *)
+    split; [reflexivity|]. split; [exact WI|]. intros k'. destruct (N.eq_dec k k') as [<-|NE]; [|others O NE].
+    odisk HI P k id.
+    + intros _ _ [A|A]; [left; auto|discriminate].
+    + intros m0 fo d0 EM XD Hfo HF D1 D2. exfalso. unfold data_inv, disk_data in D1. rewrite Heqo in D1.
+      destruct (f_dd fo); destruct D1 as [e [A _]]; discriminate.
+  - (* 27 nothing dirty: delete(f.blobs) *)
+    split; [reflexivity|]. split; [exact WI|]. intros k'. destruct (N.eq_dec k k') as [<-|NE]; [|others O NE].
+    apply (own_unmark s g k id HI P Heql).
+  - (* 28 dirty again: loop *)
+    split; [reflexivity|]. split; [exact WI|]. intros k'. destruct (N.eq_dec k k') as [<-|NE]; [|others O NE].
+    odisk HI P k id.
+    + intros _ _ [A|A]; [left; auto|discriminate].
+    + intros m0 fo d0 EM XD Hfo HF D1 D2. unfold data_inv, md_inv in *. split; auto.
+  - (* 29 *)
+    split; [reflexivity|]. split; [exact WI|]. intros k'. destruct (N.eq_dec k k') as [<-|NE]; [|others O NE].
+    apply (own_fail1 s g k HI P).
+  - (* 30 *)
+    split; [reflexivity|]. split; [exact WI|]. intros k'. destruct (N.eq_dec k k') as [<-|NE]; [|others O NE].
+    apply (own_fail2 s g k HI P).
+  - (* 31 *)
+    split; [reflexivity|]. split; [exact WI|]. intros k'. destruct (N.eq_dec k k') as [<-|NE]; [|others O NE].
+    pose proof (own_unban s g k HI P) as Q. cbn zeta in Q. rewrite Heqo in Q. exact Q.
+  - (* 32 *)
+    split; [reflexivity|]. split; [exact WI|]. intros k'. destruct (N.eq_dec k k') as [<-|NE]; [|others O NE].
+    pose proof (own_unban s g k HI P) as Q. cbn zeta in Q. rewrite Heqo in Q. exact Q.
+Qed.
+
